@@ -22,8 +22,10 @@ REPO = os.path.realpath(os.environ.get("VERIF_REPO", "/repo"))
 CLAIMED = ["C01", "C02", "C05", "C10", "C12", "C13", "C15", "C17", "C18", "C19", "C20"]
 
 
-class Violation(Exception):
-    """The property does not hold on this run (oracle = channel id)."""
+class Violation(BaseException):
+    """The property does not hold on this run (oracle = channel id).
+    (a BaseException, like StepBudgetExceeded: an `except Exception` in a workload - or in rdflib - that tolerates failing calls
+    must not swallow the verdict of a check made inside that call)"""
 
     def __init__(self, oracle: str, detail: str, facts=None):
         super().__init__(f"{oracle}: {detail}")
@@ -32,7 +34,7 @@ class Violation(Exception):
         self.facts = facts or {}
 
 
-class KnownStop(Exception):
+class KnownStop(BaseException):
     """A listed known finding corrupted state; the run ends here, tallied as known."""
 
 
